@@ -1,5 +1,6 @@
 //@file src/append/rolling_file/mod.rs
 //@harness c06_logwriter_accounting unwind=20 strength=bounded bound="two consecutive writes of <= 8 bytes each into the 1 KiB buffer (no syscall is reached); any starting len <= u64::MAX - 16" timeout=600 body=body
+//@harness c06_logwriter_accounting_400 unwind=20 strength=bounded bound="two consecutive writes of <= 400 bytes each (together below the 1 KiB buffer, no syscall is reached); any starting len <= u64::MAX - 800" timeout=1800 body=body400 tier=thorough
 // LogWriter::write: len' = len + n for the n the buffered writer accepted. (Writes >= 1 KiB bypass the buffer and reach
 // write(2), which Kani cannot model: they are outside this bound and reported as unverified.)
 #[cfg(any(kani, verif_replay))]
@@ -9,6 +10,23 @@ mod __verif_c06_lw {
     use crate::__verif_rt::*;
     use crate::{__verif_ob, __verif_cover};
     use std::os::fd::FromRawFd;
+    pub(crate) fn body400(src: &mut Src) {
+        let file = unsafe { File::from_raw_fd(7) };
+        let len0 = src.u64(); assume(len0 <= u64::MAX - 800);
+        let mut w = LogWriter { file: BufWriter::with_capacity(1024, file), len: len0 };
+        let mut buf = [0u8; 400]; buf[0] = src.u8(); buf[399] = src.u8();
+        let n1 = src.u16() as usize; assume(n1 <= 400);
+        let n2 = src.u16() as usize; assume(n2 <= 400);
+        let r1 = io::Write::write(&mut w, &buf[..n1]);
+        let k1 = match r1 { Ok(k) => k, Err(_) => 0 };
+        __verif_ob!("write#post a write that fits the buffer is accepted whole", k1 == n1);
+        __verif_ob!("write#post len grows by exactly the accepted bytes (first write)", w.len == len0 + k1 as u64);
+        let r2 = io::Write::write(&mut w, &buf[..n2]);
+        let k2 = match r2 { Ok(k) => k, Err(_) => 0 };
+        __verif_cover!("two writes of more than 300 bytes", n1 > 300 && n2 > 300);
+        __verif_ob!("write#post len grows by exactly the accepted bytes (second write)", w.len == len0 + k1 as u64 + k2 as u64);
+        std::mem::forget(w);
+    }
     pub(crate) fn body(src: &mut Src) {
         // the descriptor is never written to: both writes stay in the 1 KiB buffer and the writer is forgotten, not dropped
         let file = unsafe { File::from_raw_fd(7) };
@@ -27,5 +45,6 @@ mod __verif_c06_lw {
         __verif_ob!("write#post len grows by exactly the accepted bytes (second write)", w.len == len0 + k1 as u64 + k2 as u64);
         std::mem::forget(w);
     }
+    #[cfg(kani)] #[kani::proof] #[kani::unwind(20)] fn c06_logwriter_accounting_400() { let mut s = Src::new(); body400(&mut s); }
     #[cfg(kani)] #[kani::proof] #[kani::unwind(20)] fn c06_logwriter_accounting() { let mut s = Src::new(); body(&mut s); }
 }
